@@ -141,6 +141,9 @@ type classM struct {
 type genericM struct {
 	name  string
 	arity int
+	// cnm: one method of the generic function already calls the next method. Nested call-next-method chains are kept
+	// out: variable lookup through the scopes of nested method calls is exponential in the depth (a matter of C10).
+	cnm bool
 }
 
 func (w *world) pick(label string, n int) int { return rapid.IntRange(0, n-1).Draw(w.t, label) }
@@ -224,7 +227,7 @@ func (w *world) defun(i int) {
 			form = append(form, r.Str(doc))
 		}
 		form = append(form, d[3:]...)
-		src := fixMark(r.Print(form))
+		src := noFunctionForm(fixMark(r.Print(form)))
 		for _, head := range []string{"(let ", "(let* ", "(cond ", "(do ", "(do* ", "(dotimes ", "(dolist ", "(lambda ", "(progn ", "(case "} {
 			if strings.Contains(src, head) {
 				w.special = true
@@ -534,20 +537,29 @@ func (w *world) genericMethod() {
 		}
 	}
 	qual := []string{"", "", "", " :before", " :after", " :around"}[w.pick("qual", 6)]
+	if qual == " :around" && g.cnm {
+		qual = " :before"
+	}
 	var body string
 	switch {
 	case qual == " :around":
 		body = "(list " + w.mark("'around") + " (call-next-method))"
+		g.cnm = true
 	case qual != "":
 		body = w.mark("x")
 	default:
-		switch w.pick("gmbody", 3) {
+		k := w.pick("gmbody", 3)
+		if k == 2 && g.cnm {
+			k = 1
+		}
+		switch k {
 		case 0:
 			body = w.mark("(list x)")
 		case 1:
 			body = "(let ((v (list x))) " + w.mark("v") + ")"
 		default:
 			body = "(if (next-method-p) (list " + w.mark("'p") + " (call-next-method)) " + w.mark("'last") + ")"
+			g.cnm = true
 		}
 	}
 	src := "(defmethod " + g.name + qual + " (" + strings.Join(params, " ") + ")"
